@@ -61,7 +61,7 @@ func init() {
 	register(&PropSpec{ID: "C05",
 		Explanation: "Structural agreement clauses of the EBU STL codec, decided by evaluating constants and literal tables of /repo and comparing sibling implementations: (T3) the 1024-byte GSI and 128-byte TTI layouts — writer part widths and reader slice offsets extracted per field — agree field by field, sum to the block sizes and do not overlap; (T2) every character the writer tables encode is decoded back to itself by the reader table, printable ASCII the writer passes through is decoded as itself, no table has duplicate keys or values; (T4) justification code maps are mutually inverse, frame-rate table rows are 8-byte keys with positive rates, STL and TTML language tables cover the same languages; (A5) GSI ↔ Metadata wiring agrees in both directions; every division by the frame rate is guarded. Not decided: timecode quantisation, diacritic composition, style runs, teletext-vs-open display-standard behaviour.",
 		Assumptions: commonAssumptions,
-		Rules:       []Rule{{"layouts", ruleSTLLayouts}, {"char-tables", ruleSTLCharTables}, {"code-maps", ruleSTLCodeMaps}, {"metadata-wiring", ruleSTLMetadataWiring}, {"support-framerate", ruleSupportFramerate}, {"timestamp-format", ruleDurationFormats("STL")}, {"language-sources", ruleLanguageSources("STL")}, {"frame-rounding", ruleSTLRounding}, {"reader-full-scan", ruleReaderFullScan([]string{"ReadFromSTL"}, 1)}, {"per-cue-independence", ruleNoCarriedState((*Prog).WriterClosure, 5)}, {"emit-every-element", ruleEmitEveryElement([]string{"Subtitles.WriteToSTL"}, 1)}, {"fixed-radix", ruleFixedRadix}, {"gsi-framerate", ruleGSIFramerateValidated}, {"teletext-box", ruleSTLBoxAgreement}},
+		Rules:       []Rule{{"layouts", ruleSTLLayouts}, {"char-tables", ruleSTLCharTables}, {"code-maps", ruleSTLCodeMaps}, {"metadata-wiring", ruleSTLMetadataWiring}, {"support-framerate", ruleSupportFramerate}, {"timestamp-format", ruleDurationFormats("STL")}, {"language-sources", ruleLanguageSources("STL")}, {"frame-rounding", ruleSTLRounding}, {"reader-full-scan", ruleReaderFullScan([]string{"ReadFromSTL"}, 1)}, {"per-cue-independence", ruleNoCarriedState((*Prog).WriterClosure, 5)}, {"emit-every-element", ruleEmitEveryElement([]string{"Subtitles.WriteToSTL"}, 1)}, {"fixed-radix", ruleFixedRadix}, {"gsi-framerate", ruleGSIFramerateValidated}, {"teletext-box", ruleSTLBoxAgreement}, {"offset-symmetry", ruleSTLOffsetSymmetry}},
 	})
 	register(&PropSpec{ID: "C06",
 		Explanation: "Exclusion clause of teletext decoding only (packets of other pages, magazines, PIDs, non-subtitle units never contribute text; characters failing parity contribute none; only boxed text): the chain of control-dependence guards on the only path along which bytes reach a cue's text is decided on the SSA dominator tree — parsePacketData only under receiving ∧ magazine match ∧ 1 ≤ packet ≤ 25; parsePacket only for data-unit id 0x03, framing code 0xe4 and two successful Hamming decodes; parseDataUnit only for EBU data identifiers; process only for the teletext PID, private stream 1 and a presentation time; a page instance starts only on page ∧ magazine match; run text grows only after a start-box; the stored byte is ByteParity's result or 0. Tables: every teletextCharsets row sets g0, national positions < 96, 700+ entries are single UTF-8 runes, colour codes 0–7 map to black…white with the CSS RGB values. Not decided: page scheduling, timing, serial/parallel termination, auto-detection — behaviours of a state machine over the packet sequence; there is no sibling encoder to cross-check against.",
